@@ -6,6 +6,8 @@ def run(cx):
     A, mutable = R.attrset(cx)
     R.reduce_shape(cx)
     R.eqhash(cx)
+    from . import io_segments
+    io_segments.owned_events(cx)
     cx.exhaustive = True
     cx.floor('ATTRSET', cx.rules.get('ATTRSET', 0), 60, 'attribute wiring obligations')
     cx.decided += [
@@ -14,6 +16,7 @@ def run(cx):
         'every attribute that is not immutable is deep-copied in __array_finalize__ (copies/views share no metadata)',
         '__reduce__ reads the current instance attributes (any analysis state) and keeps NumPy\'s own reduce value of this very array',
         '__setstate__ hands NumPy\'s state to ndarray.__setstate__',
+        'the reader hands out events held in memory of their own (copy of the read-only map / freshly allocated array), so a load does not follow later changes of the file and loads are independent',
         'FCSFile.__eq__ and __hash__ cover the same five components; events compared exactly (np.array_equal)',
     ]
     cx.not_decided += ['NumPy\'s own pickling of buffer and dtype for every protocol', 'ndarray.copy/deepcopy/view semantics']
